@@ -376,6 +376,10 @@ pub enum HashKind {
     Uniform(u64),
     /// every key has the same hash: tree bins ordered by key only
     Const,
+    /// `(k % m) << 20`: one bin for every table below 2^20 bins holding m different hashes, each
+    /// shared by many keys (a tree ordered by hash first and by key among equal hashes, where
+    /// hash order and key order disagree)
+    Mixed(u32),
     /// `k << 20`: one bin for every table below 2^20 bins, distinct hashes (tree ordered by hash)
     SameBin,
     /// only the top 16 bits vary
@@ -397,6 +401,7 @@ impl HashKind {
             }
             HashKind::Const => 0x42,
             HashKind::SameBin => (k as u64) << 20,
+            HashKind::Mixed(m) => ((k % m.max(1)) as u64) << 20,
             HashKind::HighBits => (k as u64) << 48,
             HashKind::Identity => k as u64,
             HashKind::Mod(m) => (k % m.max(1)) as u64,
@@ -418,6 +423,7 @@ impl HashKind {
             HashKind::Identity => "identity".into(),
             HashKind::Mod(m) => format!("mod:{}", m),
             HashKind::Split(m) => format!("split:{}", m),
+            HashKind::Mixed(m) => format!("mixed:{}", m),
         }
     }
 
@@ -434,6 +440,7 @@ impl HashKind {
             ("identity", _) => HashKind::Identity,
             ("mod", Some(b)) => HashKind::Mod(b.parse().ok()?),
             ("split", Some(b)) => HashKind::Split(b.parse().ok()?),
+            ("mixed", Some(b)) => HashKind::Mixed(b.parse().ok()?),
             _ => return None,
         })
     }
